@@ -19,7 +19,7 @@ RULE = ("G-int generator: per (type, radix) boundary values r^k-1, r^k, r^k+1, m
 
 TECHNIQUE = 'Lean 4 proof: model of algorithm.rs (unchecked prefix, SWAR 4/8-digit loops, checked tail) = left-to-right specification scan, for every input; overflow_digits table by decide +kernel; correspondence ties the model to the code'
 LEVEL_TEXT = "Complete Lean theorem parseInt_model_eq_spec: for all 12 integer types, radices 2..36, partial/complete, no_multi_digit on/off and EVERY byte string, the model of lexical-parse-integer's algorithm (non-format build) returns exactly the specification's result (value, Empty/InvalidDigit/Overflow/Underflow with exact index), FAULT unreachable, indices <= length; SWAR lemmas proved by byte decomposition. The model is tied to the Rust by the correspondence run (hundreds of thousands of boundary inputs, 3-6 feature sets)."
-LEVEL_NOTE = 'Trusted: Lean kernel; that Model.ParseInt mirrors algorithm.rs (checked by correspondence only); format-feature branches (prefix/suffix/leading zeros/separators) are not covered by this theorem (see C12/C13).'
+LEVEL_NOTE = 'Trusted: Lean kernel; that Model.ParseInt mirrors algorithm.rs (checked by correspondence only); format-feature branches (prefix/suffix/leading zeros/integer separators) are not covered by this theorem (see C12/C13); for the format build C04Format.parseIntFormat_simple_spec proves the same result for every format without integer separator flags / prefix / suffix / leading-zero flag - any separator byte and any fraction/exponent separator flags (the former exclusion of separator bytes fell with the repaired defect, regression_sep_elsewhere) - also on inputs containing the separator byte.'
 
 
 def feature_sets(tier):
